@@ -110,7 +110,7 @@ def run_check(prop, tier, verdict):
                     if k:
                         verdict.known_finding(k["id"], k["what"])
                     else:
-                        first = [l for l in last.splitlines() if "ERROR" in l or "runtime error" in l or "TERMINATE" in l]
+                        first = [l for l in last.splitlines() if "ERROR" in l or "runtime error" in l or "TERMINATE" in l or "VERIF-SIGNAL" in l or "Assertion" in l]
                         verdict.violation(dest, "cfg=%s build=%s crash while executing %s: %s" % (j["cfg"], j["build"], opn, first[0] if first else ""))
                         nviol += 1
             else:
